@@ -18,6 +18,18 @@ plus the modelled copies, byte for byte (directories too: no other path may appe
 run fails, Copier.copy must raise one of the modelled exception classes, and nothing outside the modelled write
 set may have been touched (sibling transfers are cancelled midway, so their targets may be partial or absent).
 
+"For every set of transfers": the verdict of one Copier.copy call depends only on the tree that exists when the call
+starts.  Phase history therefore runs SEQUENCES of 2-6 copies inside one process on the same path strings - half of
+them through one long-lived event loop / thread pool / RouterAsyncFS (as hailtop/fs/router_fs.py::RouterFS.copy does),
+half with a fresh loop and FS per copy (as copy.py does) - while the harness changes the tree between the copies the
+way a caller, a cleanup job or another process would (destination directories made by an earlier copy removed, emptied,
+replaced by a file; destination files removed, rewritten, replaced by a directory; source files rewritten with the same
+or another length, added, removed, file <-> directory).  Later copies mostly repeat the (source, destination) strings
+of earlier ones, possibly under another mode or trailing slash.  Every copy is judged by the same model and the same
+byte-for-byte comparison against the tree as it is at its start (the scratch tree is compared with the model tree
+before every copy), so anything the copier remembers from an earlier call (created directories, destination type,
+source type / size / listing) shows as a spurious or missing error, a missing, misplaced or stale file.
+
 Not expressible between local paths: a source that is both file and directory (FileAndDirectoryError).
 """
 import asyncio
@@ -32,7 +44,12 @@ RULE = (
     'each run through the real copier with seeded part/buffer sizes; phase random: 1-4 simultaneous transfers, each with its own '
     'destination root (pre-state absent/file/dir, with overlapping, conflicting and unrelated pre-existing entries), 1-3 sources per '
     'transfer (file, dir, nested, missing, trailing slash), all three treat_dest_as modes, file sizes drawn around multiples of the '
-    'part size (1..64) and buffer size (1..64), semaphore 1-8, thread pool 1-8, and an optional yielding FS wrapper. '
+    'part size (1..64) and buffer size (1..64), semaphore 1-8, thread pool 1-8, and an optional yielding FS wrapper; '
+    'phase history: sequences of 2-6 Copier.copy calls in one process over the same path strings (1-3 transfers per call, each in its own '
+    'slot directory; later calls mostly repeat earlier (source, destination) strings, sometimes with another mode / trailing slash), with '
+    '0-3 seeded mutations of the destination and source trees between calls (13 kinds: remove / empty / retype destination directories '
+    'and files, rewrite / add / remove / retype sources), through one shared event loop + thread pool + RouterAsyncFS or a fresh one per call; '
+    'every call is judged against the model of the tree at its start; after a failing call the harness restores the pre-state. '
     'Distinct by (per-transfer mode, source kinds, destination state, slashes, outcome; multi-part shape); non-trivial when at least '
     'one file is copied or an error is expected.'
 )
@@ -41,6 +58,10 @@ ASSUMPTIONS = [
     'the sandbox local filesystem (tmpfs / ext4) behaves as POSIX for open/stat/scandir/makedirs',
     'thread scheduling is not controlled: interleavings vary with semaphore size, pool size and the yielding wrapper, not enumerated',
     'FileAndDirectoryError (source both file and directory) cannot occur between local paths and is not exercised',
+    'phase history: the tree changes only BETWEEN Copier.copy calls (never during one); after a failing call the harness puts the tree back to '
+    'the state before the call, so partial leftovers of failed copies are not carried into later calls',
+    'a directory source without any file whose destination lies below a regular file: success and NotADirectoryError are both accepted '
+    '(nothing to copy; the rules do not say whether the destination is looked at)',
 ]
 TRUSTED_BASE = ['reference model in vf/monitors/c22.py', 'COPY_TEST_SPECS table of the repository (cross-check only)', 'local filesystem of the sandbox']
 SHARDS = {'quick': 4, 'thorough': 16}
@@ -48,6 +69,11 @@ TIMEOUT = {'quick': 600, 'thorough': 1800}
 FLOORS = {
     'model_specs_agree': 324, 'runs_success': 300, 'runs_error': 60, 'files_verified': 1000, 'multipart_files_verified': 150,
     'multipart_exact_multiple_verified': 20, 'outcome_classes': 4, 'modes_seen': 3,
+    # phase history (about half of the minimum seen over quick seeds 0..4)
+    'runs_history': 350, 'hist_later_steps_verified': 260, 'hist_steps_shared_loop_and_fs': 170, 'hist_steps_fresh_loop_and_fs': 165,
+    'hist_files_into_dir_first_created_by_copier': 500, 'hist_files_into_recreated_dir': 100, 'hist_recopies_after_target_removed': 120,
+    'hist_copies_after_dest_state_changed': 130, 'hist_error_after_dest_state_changed': 20, 'hist_recopies_of_changed_source': 25,
+    'hist_source_kind_changed_copies': 5, 'hist_mutation_kinds': 10, 'hist_dest_transitions': 3, 'hist_sessions': 2,
 }
 
 DEST_DIR, DEST_IS_TARGET, INFER_DEST = 'dest_dir', 'dest_is_target', 'infer_dest'
@@ -96,6 +122,18 @@ class MFS:
         p = norm(p)
         pre = p + '/'
         return {k[len(pre) :]: v for k, v in self.files.items() if k.startswith(pre)}
+
+    def remove(self, p):
+        """remove the file p, or the directory p with everything below it"""
+        p = norm(p)
+        pre = p + '/'
+        self.files = {k: v for k, v in self.files.items() if k != p and not k.startswith(pre)}
+        self.dirs = {d for d in self.dirs if d != p and not d.startswith(pre)}
+
+    def under(self, root):
+        """(files, dirs) at or below root"""
+        pre = root + '/'
+        return ({k: v for k, v in self.files.items() if k.startswith(pre)}, {d for d in self.dirs if d == root or d.startswith(pre)})
 
 
 def norm(p):
@@ -161,6 +199,17 @@ def model_source(m, src, dest, mode, src_is_list):
             out['errors'].add('NotADirectoryError')
             return out
         planned = {norm(join(full_dest, rel)): data for rel, data in m.files_under(src).items()}
+        if not planned:
+            # a directory source WITHOUT any file, whose destination lies below a regular file: there is nothing to
+            # copy, so "directory through a file -> NotADirectoryError" has no file to fail on; the copier notices the
+            # file only when it looks at the destination (INFER_DEST stats it: ENOTDIR).  The rules do not say which
+            # => success and NotADirectoryError are both accepted (unspecified, not a violation)
+            anc = os.path.dirname(norm(dest))
+            while anc and anc != '/':
+                if m.kind(anc) == 'file':
+                    out['may_errors'] = {'NotADirectoryError'}
+                    break
+                anc = os.path.dirname(anc)
     for target, data in planned.items():
         err = None
         anc = os.path.dirname(target)
@@ -179,7 +228,7 @@ def model_source(m, src, dest, mode, src_is_list):
 
 def model_run(pre, transfers):
     """transfers: list of dict(src, dest, mode).  -> dict(ctor_error, errors, writes, per_transfer)"""
-    res = {'ctor_error': None, 'errors': set(), 'writes': {}, 'per_transfer': []}
+    res = {'ctor_error': None, 'errors': set(), 'may_errors': set(), 'writes': {}, 'per_transfer': []}
     for t in transfers:
         ce, mode = model_ctor(t['src'], t['dest'], t['mode'])
         if ce:
@@ -192,6 +241,7 @@ def model_run(pre, transfers):
             o = model_source(pre, s, t['dest'], mode, isinstance(t['src'], list))
             per.append(o)
             res['errors'] |= o['errors']
+            res['may_errors'] |= o.get('may_errors', set())
             for k, v in o['writes'].items():
                 assert k not in res['writes'] or res['writes'][k] == v, ('generator produced overlapping targets', k)
                 res['writes'][k] = v
@@ -291,6 +341,67 @@ def snapshot(root):
     return files, dirs
 
 
+def apply_ops_model(m, ops):
+    for o in ops:
+        if o['op'] == 'rm':
+            assert m.kind(o['path']) is not None, o
+            m.remove(o['path'])
+        elif o['op'] == 'mkdir':
+            m.add_dir(o['path'])
+        else:
+            m.add_file(o['path'], o['data'])
+
+
+def apply_ops_real(ops):
+    for o in ops:
+        p = o['path']
+        if o['op'] == 'rm':
+            if os.path.isdir(p) and not os.path.islink(p):
+                shutil.rmtree(p)
+            else:
+                os.remove(p)
+        elif o['op'] == 'mkdir':
+            os.makedirs(p, exist_ok=True)
+        else:
+            os.makedirs(os.path.dirname(p), exist_ok=True)
+            with open(p, 'wb') as f:
+                f.write(o['data'])
+
+
+def describe_mutations(mutations):
+    return [{'kind': mu['kind'], 'ops': [(o['op'], o['path']) + ((len(o['data']),) if 'data' in o else ()) for o in mu['ops']]} for mu in mutations]
+
+
+def tree_diff(root, m):
+    """'' when the real tree below root is exactly the model tree, else a description"""
+    files, dirs = snapshot(root)
+    mf, md = m.under(root)
+    if files == mf and dirs == md:
+        return ''
+    return repr({
+        'files_only_real': sorted(set(files) - set(mf))[:5], 'files_only_model': sorted(set(mf) - set(files))[:5],
+        'files_differ': sorted(k for k in files if k in mf and files[k] != mf[k])[:5],
+        'dirs_only_real': sorted(dirs - md)[:5], 'dirs_only_model': sorted(md - dirs)[:5],
+    })
+
+
+def restore(root, m):
+    """bring the real tree below root back to the model tree, touching only what differs"""
+    files, dirs = snapshot(root)
+    mf, md = m.under(root)
+    for p in files:
+        if p not in mf:
+            os.remove(p)
+    for d in sorted(dirs - md, key=len, reverse=True):
+        os.rmdir(d)
+    for d in sorted(md - dirs, key=len):
+        os.makedirs(d, exist_ok=True)
+    for p, data in mf.items():
+        if files.get(p) != data:
+            with open(p, 'wb') as f:
+                f.write(data)
+
+
 class _Jitter:
     """Transparent proxy that yields to the event loop a seeded number of times around every coroutine method
     (and around async-with / async-for steps) of the wrapped FS object and of the streams / part creators /
@@ -360,38 +471,78 @@ def run(ctx):
     orig_part = LocalAsyncFS.__dict__.get('copy_part_size')
     orig_buf = Copier.BUFFER_SIZE
 
-    def execute(case, pre, root):
-        """run the real copier on the materialised pre-state; -> (exception or None, yields)"""
+    def open_session(pool_size):
+        """one event loop, one thread pool and one RouterAsyncFS that serve every copy of a history (the way the
+        long-lived `afs` of hailtop/fs/router_fs.py::RouterFS.copy serves every hfs.copy of a process)"""
+        loop = asyncio.new_event_loop()
+        pool = ThreadPoolExecutor(max_workers=pool_size)
+        rfs = RouterAsyncFS(local_kwargs={'thread_pool': pool}, gcs_bucket_allow_list=[])
+        loop.run_until_complete(rfs.__aenter__())
+        return {'loop': loop, 'pool': pool, 'pool_size': pool_size, 'rfs': rfs}
+
+    def drain_session(session):
+        """every blocking call already handed to the session's pool has finished when this returns (a cancelled
+        coroutine does not stop its thread): all workers must meet at the barrier, the queue is FIFO"""
+        import threading
+
+        n = session['pool_size']
+        barrier = threading.Barrier(n)
+        for f in [session['pool'].submit(barrier.wait, 120) for _ in range(n)]:
+            f.result()
+
+    def close_session(session):
+        try:
+            session['loop'].run_until_complete(session['rfs'].__aexit__(None, None, None))
+        finally:
+            try:
+                session['loop'].run_until_complete(session['loop'].shutdown_asyncgens())
+            finally:
+                session['loop'].close()
+                session['pool'].shutdown(wait=True)
+
+    def execute(case, pre, root, session=None):
+        """run the real copier on the materialised pre-state; -> (exception or None, yields).
+        Without a session: a fresh event loop, thread pool and RouterAsyncFS for this copy (as copy.py);
+        with one: the session's loop, pool and RouterAsyncFS (as a long-lived RouterFS)."""
         P, B = case['part_size'], case['buffer_size']
         LocalAsyncFS.copy_part_size = staticmethod(lambda url: P)
         Copier.BUFFER_SIZE = B
-        pool = ThreadPoolExecutor(max_workers=case['pool'])
+        pool = ThreadPoolExecutor(max_workers=case['pool']) if session is None else None
         counter = [0]
         import random as _random
 
         jrng = _random.Random(case['jitter_seed'])
 
-        async def main():
+        async def copy_with(rfs):
             transfers = []
             for t in case['transfers']:
                 transfers.append(Transfer(t['src'], t['dest'], treat_dest_as=t['mode']))
             arg = transfers[0] if (len(transfers) == 1 and case['single_not_list']) else transfers
+            fs = _Jitter(rfs, jrng, counter) if case['jitter'] else rfs
+            sema = asyncio.Semaphore(case['sema'])
+            async with sema:
+                await Copier.copy(fs, sema, arg)
+
+        async def main():
             async with RouterAsyncFS(local_kwargs={'thread_pool': pool}, gcs_bucket_allow_list=[]) as rfs:
-                fs = _Jitter(rfs, jrng, counter) if case['jitter'] else rfs
-                sema = asyncio.Semaphore(case['sema'])
-                async with sema:
-                    await Copier.copy(fs, sema, arg)
+                await copy_with(rfs)
 
         exc = None
         try:
             try:
-                asyncio.run(asyncio.wait_for(main(), 120))
+                if session is None:
+                    asyncio.run(asyncio.wait_for(main(), 120))
+                else:
+                    session['loop'].run_until_complete(asyncio.wait_for(copy_with(session['rfs']), 120))
             except asyncio.TimeoutError:
                 raise
             except Exception as e:  # noqa: BLE001 - the raised class is the observation
                 exc = e
         finally:
-            pool.shutdown(wait=True)  # no straggling writes after the snapshot
+            if session is None:
+                pool.shutdown(wait=True)  # no straggling writes after the snapshot
+            else:
+                drain_session(session)  # the same
             if orig_part is None:
                 try:
                     del LocalAsyncFS.copy_part_size
@@ -409,21 +560,31 @@ def run(ctx):
             'pre_files': {k: len(v) for k, v in sorted(pre.files.items())}, 'pre_dirs': sorted(d for d in pre.dirs if len(d) > len(scratch_parent)),
         }
 
-    def evaluate(case, pre, root, dst_root, phase):
+    def evaluate(case, pre, root, dst_root, phase, session=None, prepared=False, hist=None):
+        """one Copier.copy call judged against the model of the tree that exists when it starts.
+        prepared: the real tree already equals `pre` (history phase: it is what earlier copies and the harness's
+        own mutations left behind); hist: {'key': ..., 'witness': {...}} of the history step.
+        -> {'model', 'exc', 'expected_errors'} or None (watchdog)"""
         model = model_run(pre, case['transfers'])
         # the model's paths are the real paths: `root` is a fresh scratch directory
-        materialise(pre, root)
+        if not prepared:
+            materialise(pre, root)
         try:
-            exc, yields = execute(case, pre, root)
+            exc, yields = execute(case, pre, root, session)
         except asyncio.TimeoutError:
             ctx.inconclusive_because('a copy did not finish within the 120 s watchdog (hang; not decided on wall-clock time)')
-            return
+            return None
         files, dirs = snapshot(dst_root)
         P = case['part_size']
         expected_errors = set(model['errors'])
         if model['ctor_error']:
             expected_errors = {model['ctor_error']}
         got_name = type(exc).__name__ if exc is not None else None
+        if exc is not None and not model['ctor_error'] and got_name in model['may_errors']:
+            expected_errors = expected_errors | model['may_errors']  # an outcome the rules leave open (see model_source)
+            ctx.count('unspecified_outcome_error_accepted')
+        elif exc is None and model['may_errors'] and not expected_errors:
+            ctx.count('unspecified_outcome_success_accepted')
         ctx.count('yields_injected', yields)
         for t in case['transfers']:
             ctx.seen('modes_seen', t['mode'])
@@ -442,6 +603,9 @@ def run(ctx):
             ))
         mp = sorted({(min(-(-len(v) // P), 9), len(v) % P == 0) for v in model['writes'].values() if len(v) > P})
         key = (tuple(shape), tuple(mp), case['sema'] == 1, case['jitter'])
+        if hist is not None:
+            key = key + (hist['key'],)
+        result = {'model': model, 'exc': exc, 'expected_errors': sorted(expected_errors)}
         nontrivial = bool(model['writes']) or bool(expected_errors)
         ctx.case(sample=describe(case, pre) if ctx.evaluations < 3 else {'transfers': case['transfers'], 'P': P}, key=key, nontrivial=nontrivial)
 
@@ -450,6 +614,8 @@ def run(ctx):
             w.update({'expected_errors': sorted(expected_errors), 'raised': repr(exc)[:300], 'phase': phase,
                       'actual_files': {k: len(v) for k, v in sorted(files.items())}, 'actual_dirs': sorted(dirs)})
             w.update(extra)
+            if hist is not None:
+                w.update(hist['witness'])
             return w
 
         pre_files = {k: v for k, v in pre.files.items() if k.startswith(dst_root + '/')}
@@ -460,10 +626,10 @@ def run(ctx):
             ctx.count(f'runs_error_{phase}')
             if exc is None:
                 ctx.violation(f'error/not-raised/{sorted(expected_errors)[0]}', f'copy succeeded but the rules say {sorted(expected_errors)}', witness({}))
-                return
+                return result
             if got_name not in expected_errors:
                 ctx.violation(f'error/wrong-class/{got_name}-for-{sorted(expected_errors)[0]}', f'copy raised {exc!r} but the rules say {sorted(expected_errors)}', witness({}))
-                return
+                return result
             ctx.count(f'error_{got_name}')
             # nothing outside the modelled write set may have been touched
             allowed_dirs = set(pre_dirs)
@@ -485,12 +651,12 @@ def run(ctx):
             for d in dirs:
                 if d not in allowed_dirs:
                     ctx.violation('error-run/unexpected-path-created', f'directory {d} created outside the modelled targets', witness({'path': d}))
-            return
+            return result
 
         ctx.count('runs_success')
         if exc is not None:
             ctx.violation(f'error/spurious/{got_name}', f'copy raised {exc!r} but the rules say it succeeds', witness({}))
-            return
+            return result
         exp_files = dict(pre_files)
         exp_files.update(model['writes'])
         exp_dirs = set(pre_dirs)
@@ -559,6 +725,73 @@ def run(ctx):
                 detail = {}
             detail.update({'path': p, 'want_len': len(want), 'got_len': len(got), 'want_head': want[:48], 'got_head': got[:48]})
             ctx.violation(mech, f'{p}: {len(got)} bytes differ from the source ({len(want)} bytes), part size {P}', witness(detail))
+        return result
+
+    # ---- histories: several Copier.copy calls of ONE process on the same path strings --------------
+    def n_violations():
+        return sum(v for k, v in ctx.counters.items() if k.startswith('violation['))
+
+    def run_history(hist, root):
+        from vf.harness import Inconclusive
+
+        dst_root = root + '/dst'
+        materialise(hist['initial'], root)
+        session = open_session(hist['pool']) if hist['session'] == 'one-loop-one-fs' else None
+        ctx.seen('hist_sessions', hist['session'])
+        log = []
+        try:
+            for k, step in enumerate(hist['steps']):
+                for mu in step['mutations']:
+                    apply_ops_real(mu['ops'])
+                diff = tree_diff(root, step['pre'])
+                if diff:
+                    # the harness's own book-keeping is off (every earlier step was verified against the model)
+                    raise Inconclusive(f'history phase: the scratch tree differs from the model before step {k}: {diff[:300]}')
+                h = {
+                    'key': (min(k, 3), tuple(sorted(mu['kind'] for mu in step['mutations'])), tuple(step['relations']), hist['session'],
+                            step['into_recreated_dir'] > 0, step['dest_state_changed'] > 0, step['recopy_changed'] > 0),
+                    'witness': {'history_session': hist['session'], 'history_step': k, 'history_mutations_before_this_copy': describe_mutations(step['mutations']),
+                                'history_earlier_steps': list(log)},
+                }
+                before = n_violations()
+                res = evaluate(step['case'], step['pre'], root, dst_root, 'history', session=session, prepared=True, hist=h)
+                if res is None or n_violations() != before:
+                    ctx.count('histories_stopped_at_violation_or_watchdog')
+                    return
+                log.append({'mutations': describe_mutations(step['mutations']), 'transfers': step['case']['transfers'],
+                            'outcome': type(res['exc']).__name__ if res['exc'] is not None else 'success'})
+                ctx.count('hist_steps_verified')
+                ctx.count('hist_steps_' + ('shared_loop_and_fs' if session is not None else 'fresh_loop_and_fs'))
+                if k > 0:
+                    ctx.count('hist_later_steps_verified')
+                for mu in step['mutations']:
+                    ctx.seen('hist_mutation_kinds', mu['kind'])
+                    ctx.count('hist_mutations_applied')
+                for rel in step['relations']:
+                    ctx.count('hist_transfer_' + rel)
+                if step['expect_error']:
+                    ctx.count('hist_error_steps')
+                    if step['dest_state_changed']:
+                        ctx.count('hist_error_after_dest_state_changed')
+                    # a failing copy leaves an unspecified part of its targets behind: the harness cleans up after it
+                    # (as a caller would), which keeps the history a function of the seed
+                    restore(root, step['pre'])
+                    ctx.count('hist_restores_after_error')
+                else:
+                    # these are counted only for copies that were verified byte for byte above
+                    ctx.count('hist_files_into_recreated_dir', step['into_recreated_dir'])
+                    ctx.count('hist_files_into_dir_first_created_by_copier', step['into_new_dir'])
+                    ctx.count('hist_copies_after_dest_state_changed', step['dest_state_changed'])
+                    ctx.count('hist_recopies_of_changed_source', step['recopy_changed'])
+                    ctx.count('hist_recopies_of_unchanged_source', step['recopy_same'])
+                    ctx.count('hist_recopies_after_target_removed', step['recopy_after_removed'])
+                    ctx.count('hist_source_kind_changed_copies', step['source_kind_changed'])
+                    for tr in step['dest_transitions']:
+                        ctx.seen('hist_dest_transitions', tr)
+            ctx.count('histories_completed')
+        finally:
+            if session is not None:
+                close_session(session)
 
     # ---------------------------------------------------------------------------------------------
     try:
@@ -585,6 +818,15 @@ def run(ctx):
             try:
                 case, pre = gen_case(rng, root)
                 evaluate(case, pre, root, root + '/dst', 'random')
+            finally:
+                shutil.rmtree(root, ignore_errors=True)
+
+        # ---- phase history: sequences of copies in one process, the tree changing in between ------
+        NH = ctx.pick(50, 360)  # per shard
+        for i, rng in ctx.cases(NH, 'history'):
+            root = tempfile.mkdtemp(prefix='h-', dir=scratch_parent)
+            try:
+                run_history(gen_history(rng, root), root)
             finally:
                 shutil.rmtree(root, ignore_errors=True)
     finally:
@@ -760,6 +1002,242 @@ def gen_case(rng, root):
 
 
 # --------------------------------------------------------------------------------------------------
+# history generator: several copies of one process over the same path strings, the tree changing in between
+# --------------------------------------------------------------------------------------------------
+
+HIST_MUTATIONS = [
+    ('rm-dest-dir', 6), ('rm-dest-all', 2), ('rm-dest-file', 2), ('dest-dir-to-file', 1.5), ('dest-file-to-dir', 1.5), ('dest-file-rewrite', 1.5),
+    ('dest-dir-emptied', 1), ('src-rewrite', 5), ('src-add', 1.5), ('src-rm', 1.5), ('src-file-to-dir', 1.2), ('src-dir-to-file', 1.2),
+]
+
+
+def gen_mutation(rng, cur, src_root, dst_root, P, B, used_srcs=()):
+    """one change made to the tree between two copies by somebody else (the caller, a cleanup, another process)
+    -> {'kind', 'ops'} or None when the drawn kind has nothing to act on.  Source-side changes prefer (70 %) what an
+    earlier transfer of the history named as a source, or what lies below it."""
+
+    def prefer(cands, exact):
+        hot = [c for c in cands if any(c == u or (not exact and c.startswith(u + '/')) for u in used_srcs)]
+        return rng.choice(hot) if hot and rng.random() < 0.7 else rng.choice(cands)
+
+    kinds, weights = zip(*HIST_MUTATIONS)
+    kind = rng.choices(kinds, weights)[0]
+    dst_dirs = sorted(d for d in cur.dirs if d.startswith(dst_root + '/'))
+    dst_files = sorted(f for f in cur.files if f.startswith(dst_root + '/'))
+    src_dirs = sorted(d for d in cur.dirs if d.startswith(src_root + '/'))
+    src_files = sorted(f for f in cur.files if f.startswith(src_root + '/'))
+    ops = None
+    if kind == 'rm-dest-dir' and dst_dirs:
+        ops = [{'op': 'rm', 'path': rng.choice(dst_dirs)}]
+    elif kind == 'rm-dest-all' and (dst_dirs or dst_files):
+        top = sorted(p for p in dst_dirs + dst_files if os.path.dirname(p) == dst_root)
+        ops = [{'op': 'rm', 'path': p} for p in top]
+    elif kind == 'rm-dest-file' and dst_files:
+        ops = [{'op': 'rm', 'path': rng.choice(dst_files)}]
+    elif kind == 'dest-dir-to-file' and dst_dirs:
+        d = rng.choice(dst_dirs)
+        ops = [{'op': 'rm', 'path': d}, {'op': 'write', 'path': d, 'data': rng.randbytes(rng.choice([0, 3, 200]))}]
+    elif kind == 'dest-file-to-dir' and dst_files:
+        f = rng.choice(dst_files)
+        ops = [{'op': 'rm', 'path': f}, {'op': 'mkdir', 'path': f}]
+    elif kind == 'dest-file-rewrite' and dst_files:
+        f = rng.choice(dst_files)
+        n = len(cur.files[f])
+        ops = [{'op': 'write', 'path': f, 'data': rng.randbytes(rng.choice([0, 1, n + 7, 2 * n + 1, 900]))}]
+    elif kind == 'dest-dir-emptied' and dst_dirs:
+        d = rng.choice(dst_dirs)
+        ops = [{'op': 'rm', 'path': d}, {'op': 'mkdir', 'path': d}]
+    elif kind == 'src-rewrite' and src_files:
+        f = prefer(src_files, False)
+        n = len(cur.files[f])
+        c = rng.random()
+        size = n if c < 0.35 else gen_size(rng, P, B)  # same length, other bytes: only the content tells
+        ops = [{'op': 'write', 'path': f, 'data': rng.randbytes(size)}]
+    elif kind == 'src-add':
+        d = rng.choice(src_dirs + [src_root])
+        free = [n for n in NAMES if cur.kind(d + '/' + n) is None]
+        if free:
+            ops = [{'op': 'write', 'path': d + '/' + rng.choice(free), 'data': rng.randbytes(gen_size(rng, P, B))}]
+    elif kind == 'src-rm' and (src_files or src_dirs):
+        ops = [{'op': 'rm', 'path': rng.choice(src_files + src_dirs)}]
+    elif kind == 'src-file-to-dir' and src_files:
+        f = prefer(src_files, True)
+        ops = [{'op': 'rm', 'path': f}, {'op': 'write', 'path': f + '/' + rng.choice(NAMES), 'data': rng.randbytes(gen_size(rng, P, B))}]
+    elif kind == 'src-dir-to-file' and src_dirs:
+        d = prefer(src_dirs, True)
+        ops = [{'op': 'rm', 'path': d}, {'op': 'write', 'path': d, 'data': rng.randbytes(gen_size(rng, P, B))}]
+    if not ops:
+        return None
+    return {'kind': kind, 'ops': ops}
+
+
+def gen_history(rng, root):
+    """-> {'initial': MFS, 'steps': [{'mutations', 'pre': MFS at the start of the copy, 'case', ...observables}], 'session', 'pool'}
+    Every step is one Copier.copy call with 1-3 transfers, each transfer in its own slot directory dst/t<i> (so targets of
+    one call never overlap).  A later step mostly repeats the (source, destination) strings of an earlier one, possibly with
+    another mode or trailing slash, after 0-3 mutations of the destination and source trees.  The model state advances by
+    the modelled writes of a successful step and is unchanged by a failing one (the harness cleans up after those)."""
+    P = rng.choice([1, 2, 3, 4, 5, 7, 8, 16, 17, 32, 64])
+    B = rng.choice([1, 2, 3, 5, 8, 16, 64, 64, 8 * 1024 * 1024])
+    cur = MFS()
+    src_root, dst_root = root + '/src', root + '/dst'
+    cur.add_dir(dst_root)
+    gen_tree(rng, cur, src_root, P, B, 0, NAMES)
+    initial = cur.copy()
+    n_steps = rng.choice([2, 3, 3, 4, 4, 5, 6])
+    hist = {'initial': initial, 'steps': [], 'session': rng.choice(['fresh-loop-per-copy', 'one-loop-one-fs']), 'pool': rng.randrange(1, 9)}
+    last = {}  # slot -> the transfer it last carried
+    made_by_copy = set()  # destination directories that an earlier copy of this history created
+    lost = set()  # ... and that a mutation removed afterwards
+    dest_kind_at_last_use = {}
+    src_kind_at_last_use = {}
+    copied = {}  # target -> bytes an earlier copy of this history put there
+
+    def pick_source():
+        src_files = sorted(k for k in cur.files if k.startswith(src_root + '/'))
+        src_dirs = sorted(d for d in cur.dirs if d.startswith(src_root + '/'))
+        c = rng.random()
+        if c < 0.03:
+            return src_root + '/' + rng.choice(['nope', 'a/nope', 'zz/'])
+        if c < 0.5 and src_files:
+            return rng.choice(src_files) + ('/' if rng.random() < 0.05 else '')
+        if src_dirs:
+            return rng.choice(src_dirs) + ('/' if rng.random() < 0.3 else '')
+        return src_root + ('/' if rng.random() < 0.3 else '')
+
+    def fresh_transfer(D):
+        mode = rng.choice([DEST_DIR, DEST_IS_TARGET, INFER_DEST])
+        if rng.random() < 0.25:
+            src, seen = [], set()
+            for _ in range(rng.choice([2, 2, 3])):
+                s_ = pick_source()
+                b = os.path.basename(norm(s_))
+                if b not in seen:
+                    seen.add(b)
+                    src.append(s_)
+            if mode == DEST_IS_TARGET and rng.random() < 0.8:
+                mode = rng.choice([DEST_DIR, INFER_DEST])
+        else:
+            src = pick_source()
+        dk = rng.choice(['root', 'root', 'child', 'child', 'child', 'deep'])
+        dest = D if dk == 'root' else (D + '/' + rng.choice(['x', 'sub', 'a']) if dk == 'child' else D + '/n1/n2')
+        if rng.random() < 0.3:
+            dest += '/'
+        return {'src': src, 'dest': dest, 'mode': mode}
+
+    def repeated_transfer(t):
+        t = {'src': list(t['src']) if isinstance(t['src'], list) else t['src'], 'dest': t['dest'], 'mode': t['mode']}
+        rel = 'repeat-same'
+        if rng.random() < 0.25:
+            other = [m for m in (DEST_DIR, DEST_IS_TARGET, INFER_DEST) if m != t['mode'] and not (m == DEST_IS_TARGET and isinstance(t['src'], list))]
+            t['mode'] = rng.choice(other)
+            rel = 'repeat-altered'
+        if rng.random() < 0.15:
+            t['dest'] = t['dest'][:-1] if t['dest'].endswith('/') else t['dest'] + '/'
+            rel = 'repeat-altered'
+        if isinstance(t['src'], str) and rng.random() < 0.1:
+            t['src'] = t['src'][:-1] if t['src'].endswith('/') else t['src'] + '/'
+            rel = 'repeat-altered'
+        return t, rel
+
+    for k in range(n_steps):
+        step_P = P if rng.random() < 0.75 else rng.choice([1, 2, 3, 4, 5, 7, 8, 16, 17, 32, 64])
+        step_B = B if rng.random() < 0.75 else rng.choice([1, 2, 3, 5, 8, 16, 64, 8 * 1024 * 1024])
+        mutations = []
+        if k > 0:
+            for _ in range(rng.choice([0, 1, 1, 1, 2, 2, 3])):
+                used = sorted({norm(s_) for t in last.values() for s_ in (t['src'] if isinstance(t['src'], list) else [t['src']])})
+                mu = gen_mutation(rng, cur, src_root, dst_root, step_P, step_B, used)
+                if mu is not None:
+                    apply_ops_model(cur, mu['ops'])
+                    mutations.append(mu)
+        # slots of this call
+        if k == 0:
+            slots = list(range(rng.choice([1, 1, 2, 2, 3])))
+        else:
+            slots = [sl for sl in sorted(last) if rng.random() < 0.75]
+            if len(last) < 3 and rng.random() < 0.25:
+                slots.append(len(last))
+            if not slots:
+                slots = [rng.choice(sorted(last))]
+        transfers, relations = [], []
+        accept_err = 0.25 if len(slots) == 1 else 0.1
+        for sl in slots:
+            D = f'{dst_root}/t{sl}'
+            if sl not in last and rng.random() < 0.5:
+                # a slot starts with its directory present (perhaps with a bystander) or absent
+                ops = [{'op': 'mkdir', 'path': D}]
+                if rng.random() < 0.5:
+                    ops.append({'op': 'write', 'path': D + '/keep', 'data': rng.randbytes(rng.randrange(0, 5))})
+                mu = {'kind': 'slot-starts-as-directory', 'ops': ops}
+                apply_ops_model(cur, ops)
+                mutations.append(mu)
+            for _ in range(6):
+                if sl in last and rng.random() < 0.8:
+                    t, rel = repeated_transfer(last[sl])
+                else:
+                    t, rel = fresh_transfer(D), ('fresh' if sl not in last else 'fresh-in-used-slot')
+                r = model_run(cur, [t])
+                if not (r['errors'] or r['ctor_error'] or r['may_errors']) or rng.random() < accept_err:
+                    break
+            transfers.append(t)
+            relations.append(rel)
+            last[sl] = t
+        pre = cur.copy()
+        # directories made by earlier copies that are gone now
+        for d in made_by_copy:
+            if pre.kind(d) != 'dir':
+                lost.add(d)
+        model = model_run(pre, transfers)
+        # (an outcome the rules leave open counts as failing here: the harness restores the pre-state afterwards)
+        failing = bool(model['errors'] or model['ctor_error'] or model['may_errors'])
+        step = {
+            'mutations': mutations, 'pre': pre, 'relations': relations, 'expect_error': failing,
+            'case': {
+                'transfers': transfers, 'part_size': step_P, 'buffer_size': step_B, 'sema': rng.randrange(1, 9), 'pool': hist['pool'],
+                'jitter': rng.random() < 0.6, 'jitter_seed': rng.randrange(1 << 30), 'single_not_list': rng.random() < 0.5,
+            },
+            'into_recreated_dir': 0, 'into_new_dir': 0, 'dest_state_changed': 0, 'recopy_changed': 0, 'recopy_same': 0, 'recopy_after_removed': 0,
+            'source_kind_changed': 0, 'dest_transitions': [],
+        }
+        for t in transfers:
+            dn = norm(t['dest'])
+            now = pre.kind(dn)
+            if dn in dest_kind_at_last_use and dest_kind_at_last_use[dn] != now:
+                step['dest_state_changed'] += 1
+                step['dest_transitions'].append(f'{dest_kind_at_last_use[dn]}->{now}')
+            dest_kind_at_last_use[dn] = now
+            for s_ in t['src'] if isinstance(t['src'], list) else [t['src']]:
+                sk = pre.kind(s_)
+                if s_ in src_kind_at_last_use and src_kind_at_last_use[s_] != sk and sk is not None:
+                    step['source_kind_changed'] += 1
+                src_kind_at_last_use[s_] = sk
+        if not failing:
+            for target, data in model['writes'].items():
+                parent = os.path.dirname(target)
+                if pre.kind(parent) is None:
+                    step['into_new_dir'] += 1
+                    if parent in lost:
+                        step['into_recreated_dir'] += 1
+                if target in copied:
+                    if pre.kind(target) is None:
+                        step['recopy_after_removed'] += 1
+                    elif copied[target] != data:
+                        step['recopy_changed'] += 1
+                    else:
+                        step['recopy_same'] += 1
+            before_dirs = set(cur.dirs)
+            for target, data in model['writes'].items():
+                cur.add_file(target, data)
+                copied[target] = data
+            new_dirs = cur.dirs - before_dirs
+            made_by_copy |= new_dirs
+            lost -= new_dirs
+        hist['steps'].append(step)
+    return hist
+
+
+# --------------------------------------------------------------------------------------------------
 # Validation record (scratch worktree /tmp/scratch-fs at HEAD 78296c9bd, quick tier, seed 0; removed afterwards)
 #
 # Unchanged tree: HELD for VERIF_SEED 0..4 in both tiers (no violation, no known finding).
@@ -784,6 +1262,20 @@ def gen_case(rng, root):
 #        -> exit 1  multipart/size-mismatch, multipart/last-part-size-wrong
 #  9. copier.py  `size <= part_size` -> `size < part_size` (a file of exactly one part size goes through multi-part with one part)
 #        -> exit 0: behaviour-preserving mutant (destination still byte-identical); silence is the correct answer
+#
+# Wave 9 (phase history added; scratch worktrees of HEAD b3860ceef, quick tier):
+#  10. seeded/C22-agent8: SourceCopier keeps a class-level set of destination directories it already created and skips
+#        makedirs for them (never invalidated) - invisible to single copies into fresh paths (phases specs / random)
+#        -> exit 1  error/spurious/FileNotFoundError (about 100 of the 200-240 histories of a quick run), also
+#           error/wrong-class/FileNotFoundError-for-{IsADirectoryError,NotADirectoryError}
+#  11. own: Copier._dest_type memoises the stat'ed destination type per destination string in a class-level dict
+#        -> exit 1  dest/misplaced, copy/unexpected-path-created, error-run/unexpected-path-created (history phase only)
+#  12. own: SourceCopier memoises the source size per source path in a class-level dict (stale after a rewrite)
+#        -> exit 1  multipart/size-mismatch, multipart/last-part-size-wrong, error/spurious/UnexpectedEOFError (history phase only)
+#  C22-agent2 / agent4 / agent6 re-evaluated: still caught.
+#  False alarm of the first history run (seed 1), fixed in the model, not in the generator: an EMPTY directory source
+#  copied (INFER_DEST) to a destination below a regular file raises NotADirectoryError (os.stat: ENOTDIR) where the model
+#  said "nothing to copy => success"; with DEST_DIR the same transfer succeeds.  The rules do not decide => may_errors.
 #
 # Observations that are NOT C22 violations (reported to the lead):
 #  * Copier.copy(fs, sema, [t1, t2], return_exceptions=True) copies nothing: bounded_gather2(return_exceptions=True,
